@@ -10,12 +10,16 @@ def M(name, expect, doc, *edits):
 M("tp21_send_before_state", ["C01", "C08"], "J1939-21: DT sent before the send state is advanced",
   ("j1939/j1939_21.py",
    """                            buf['next_packet_to_send'] += 1
+                            buf['last_dt_time'] = time.time()
 
-                            should_break = False""",
+                            should_break = False
+                            if package == buf['next_wait_on_cts']:""",
    """                            self._J1939_21__send_tp_dt(buf['src_address'], buf['dest_address'], data)
                             buf['next_packet_to_send'] += 1
+                            buf['last_dt_time'] = time.time()
 
-                            should_break = False"""),
+                            should_break = False
+                            if package == buf['next_wait_on_cts']:"""),
   ("j1939/j1939_21.py",
    """                            # state is ready for recv - Now send the message
                             self.__send_tp_dt(buf['src_address'], buf['dest_address'], data)
@@ -72,8 +76,8 @@ M("name_bytes_big_endian_tail", ["C15", "C04"], "NAME byte 7 taken from bits 48.
 
 M("tp21_no_abort_on_rcv_timeout", ["C06"], "J1939-21 receive time-out drops the session without abort",
   ("j1939/j1939_21.py",
-   "                        self.__send_tp_abort(buf['dest_address'], buf['src_address'], self.ConnectionAbortReason.TIMEOUT, buf['pgn'])\n                    # TODO: should we notify our CAs about the cancelled transfer?\n                    del self._rcv_buffer[bufid]",
-   "                        pass\n                    # TODO: should we notify our CAs about the cancelled transfer?\n                    del self._rcv_buffer[bufid]"))
+   "                        self.__send_tp_abort(buf['dest_address'], buf['src_address'], self.ConnectionAbortReason.TIMEOUT, buf['pgn'])\n                    # TODO: should we notify our CAs about the cancelled transfer?\n                    self._rcv_buffer.pop(bufid, None)",
+   "                        pass\n                    # TODO: should we notify our CAs about the cancelled transfer?\n                    self._rcv_buffer.pop(bufid, None)"))
 M("tp21_t2_12s", ["C06"], "T2 = 12.5 s",
   ("j1939/j1939_21.py", "        T2 = 1.250\n", "        T2 = 12.50\n"))
 M("tp21_abort_reason_in_wrong_byte", ["C03", "C06"], "Abort frame: PGN bytes shifted (reason in byte 2)",
@@ -85,8 +89,8 @@ M("tp22_eoms_no_completeness", ["C06"], "FD EOMS delivers without completeness c
    " and (len(self._rcv_buffer[buffer_hash]['data']) == message_size):", ":"))
 M("tp21_bam_rcv_timeout_keeps_buffer", ["C06", "C07"], "BAM receive time-out does not delete the buffer when dest is global",
   ("j1939/j1939_21.py",
-   "                    # TODO: should we notify our CAs about the cancelled transfer?\n                    del self._rcv_buffer[bufid]",
-   "                        del self._rcv_buffer[bufid]\n                    else:\n                        buf['deadline'] = 0"))
+   "                    # TODO: should we notify our CAs about the cancelled transfer?\n                    self._rcv_buffer.pop(bufid, None)",
+   "                        self._rcv_buffer.pop(bufid, None)\n                    else:\n                        buf['deadline'] = 0"))
 M("tp22_snd_timeout_no_release", ["C06", "C10"], "FD originator CTS time-out keeps the send buffer",
   ("j1939/j1939_22.py",
    "                        self.__send_tp_abort(buf['src_address'], buf['dest_address'], buf['session'], self.ConnectionAbortReason.TIMEOUT, buf['pgn'])\n                        del self._snd_buffer[bufid]",
